@@ -116,7 +116,7 @@ def check_symbol_keyed(run):
                 fails += 1
                 what = f"{ep} refuses a valid definition whose sensor has {m} reading(s) keyed by sympy Symbols (the idiom of every example in the repository): {res.get(ep)}"
                 run.findings.append(Finding("C14.native.valid_definition_with_symbol_keyed_readings", f"{ep}:{m}-reading sensor", what, {"language": "python", "inputs": {"symbol_keyed_readings": True, "readings": m, "seed": run.seed, "shape": [2, 0, 1, [m]]}, "oracle_verdict": what}, True))
-    run.bounded.append({"what": "valid definitions with readings keyed by sympy Symbols (1 and 2 readings per sensor) through python.compile_ekf and cpp.compile_ekf", "bound": "2 definitions x 2 entry points", "failures": fails, "counted_as_proved": False})
+    run.bounded.append({"what": "valid definitions with readings keyed by sympy Symbols (1 and 2 readings per sensor; the API annotates reading keys as Symbols and sensor keys as str) through python.compile_ekf and cpp.compile_ekf", "bound": "2 definitions x 2 entry points", "failures": fails, "counted_as_proved": False})
 
 
 def replay_file(payload):
